@@ -9,12 +9,14 @@
 (*   FrameOne        (action property) a step changes at most one existing   *)
 (*                   object (the builder/slice it is applied to)             *)
 (* and constant-level encoding lemmas (ASSUMEs below).                       *)
-EXTENDS TonBits, TLC
-CONSTANTS MaxBits, MaxRefs, MaxDepth, MaxObjs, MaxSteps
+EXTENDS TonBits, TLC, Json
+CONSTANTS MaxBits, MaxRefs, MaxDepth, MaxObjs, MaxSteps, Record
 B == INSTANCE TonBag
 
-VARIABLES objs, typed, steps
-vars == <<objs, typed, steps>>
+\* hist: the calls made so far - kept only when Record is TRUE (simulation runs that export behaviours for replay into the
+\* library); exhaustive runs leave it empty so that it does not multiply states
+VARIABLES objs, typed, steps, hist
+vars == <<objs, typed, steps, hist>>
 
 Bld == {i \in DOMAIN objs : objs[i].k = "builder"}
 Cel == {i \in DOMAIN objs : objs[i].k = "cell"}
@@ -59,10 +61,11 @@ Derive == {[op |-> "end_cell", obj |-> b, new |-> NewId] : b \in Bld}
      \cup {[op |-> "store_slice", obj |-> b, ref |-> s] : b \in Bld, s \in Slc}
      \cup {[op |-> "new_builder", new |-> NewId]}
 
-Init == objs = [i \in {} |-> 0] /\ typed = [i \in {} |-> <<>>] /\ steps = 0
+Init == objs = [i \in {} |-> 0] /\ typed = [i \in {} |-> <<>>] /\ steps = 0 /\ hist = <<>>
 Apply(c, e) == /\ e.ok = "yes"
                /\ objs' = e.objs
                /\ steps' = steps + 1
+               /\ hist' = IF Record THEN Append(hist, c) ELSE hist
 StepStore == \E b \in Bld : \E c \in Stores(b) :
                  LET e == B!Do(objs, c) IN
                  /\ Apply(c, e)
@@ -83,6 +86,8 @@ Next == steps < MaxSteps /\ (StepStore \/ StepRead \/ StepDerive)
 Spec == Init /\ [][Next]_vars
 
 \* ---- invariants
+\* G: a finished behaviour (sequence of calls) for replay into the library
+ExportBehaviour == (Record /\ steps = MaxSteps) => PrintT(ToJson(hist))
 Capacity == B!Capacity(objs)
 \* replay the read specs on a virtual slice of cell c
 RECURSIVE ReadBack(_, _, _)
